@@ -302,4 +302,81 @@ def c06_f(ctx: Ctx):
     return out
 
 
-RULES = [c06_a, c06_b, c06_c, c06_d, c06_e, c06_f]
+@rule("C06-g")
+def c06_g(ctx: Ctx):
+    """Expression dispatch and key flattening: $exists complement, int/float dual lookup, dotted-key accumulation, list hashing."""
+    R = "C06-g"
+    out = []
+    fe = ctx.fn(IDX + ":_SearchIndexer._find_expression")
+    # $exists: match if value else all - match
+    ex = [n for n in body_nodes(fe) if isinstance(n, ast.Return) and isinstance(n.value, ast.IfExp)]
+    okx = False
+    for r in ex:
+        v = r.value
+        if canon(v.test) == "value" and canon(v.body) == "match" and canon(v.orelse).replace(" ", "") == "set(self).difference(match)":
+            okx = True
+            out.append(ctx.ok(R, fe, r, "$exists: true -> ids having the key, false -> all ids minus those"))
+    if not okx:
+        out.append(ctx.inc(R, fe, fe.node, "$exists branch shape not recognised"))
+    # dual lookup
+    unions = [n for n in body_nodes(fe) if isinstance(n, ast.Return) and n.value is not None and ".union(" in canon(n.value)]
+    dual = False
+    for r in unions:
+        parts = set()
+        for nm in [x for x in ast.walk(r.value) if isinstance(x, ast.Name)]:
+            d = common.reaching_def(ctx, fe, nm.id, r)
+            if d is not None:
+                t = canon(d).replace(" ", "")
+                if t.startswith("index.get(_float(value)"):
+                    parts.add("float")
+                if t.startswith("index.get(int(value)"):
+                    parts.add("int")
+        facts = common.facts_at(ctx, fe, r, "n")
+        guard = any(pol and "is_integer()" in t for (t, pol) in facts)
+        if parts == {"float", "int"} and guard:
+            dual = True
+            out.append(ctx.ok(R, fe, r, "integer-valued numbers are looked up under both their int and their float key, and the results united"))
+        elif parts:
+            out.append(ctx.viol(R, fe, r, f"the equality look-up for integer-valued numbers consults only the {sorted(parts)} key(s): {{'x': 4}} and {{'x': 4.0}} no longer select the same jobs"))
+    if not dual and not any(r.status == "VIOLATION" for r in out):
+        out.append(ctx.inc(R, fe, fe.node, "int/float dual look-up not recognised"))
+    # plain equality: index.get(value, set())
+    plain = [n for n in body_nodes(fe) if isinstance(n, ast.Return) and n.value is not None and canon(n.value).replace(" ", "") == "index.get(value,set())"]
+    if plain:
+        out.append(ctx.ok(R, fe, plain[0], "other values are looked up under their own typed key"))
+    # flattening
+    fl = ctx.fn("signac._utility:_nested_dicts_to_dotted_keys")
+    rec = [c for c in body_nodes(fl) if isinstance(c, ast.Call) and fl.qual in common.targets_of(ctx, fl, c)]
+    if not rec:
+        out.append(ctx.inc(R, fl, fl.node, "no recursion in _nested_dicts_to_dotted_keys"))
+    for c in rec:
+        k = kwarg(c, "key") or (c.args[1] if len(c.args) > 1 else None)
+        kk = common.inline_at(ctx, fl, k, c) if k is not None else None
+        t = canon(kk).replace(" ", "") if kk is not None else ""
+        if "'.'.join((key,k))" in t and "ifkeyisNone" in t:
+            out.append(ctx.ok(R, fl, c, "nested keys are accumulated as parent.child"))
+        elif k is None or "key" not in t:
+            out.append(ctx.viol(R, fl, c, f"the recursion passes key={canon(k) if k is not None else 'nothing'}: the parent key is dropped, nested filter / state point keys collapse to their last component"))
+        else:
+            out.append(ctx.inc(R, fl, c, "key accumulation shape: " + t[:60]))
+    th = [c for c in body_nodes(fl) if isinstance(c, ast.Call) and "signac._utility:_to_hashable" in common.targets_of(ctx, fl, c)]
+    if th:
+        facts = common.facts_at(ctx, fl, th[0], "n")
+        out.append(ctx.ok(R, fl, th[0], "list values are converted to hashable tuples before they are used as index keys / set members"))
+    else:
+        out.append(ctx.viol(R, fl, fl.node, "list values are not converted with _to_hashable: filters and diffs on list-valued keys raise TypeError"))
+    h = ctx.fn("signac._utility:_to_hashable")
+    rets = [canon(r.value).replace(" ", "") for r in body_nodes(h) if isinstance(r, ast.Return) and r.value is not None]
+    if any(t.startswith(("tuple(_to_hashable(", "tuple((_to_hashable(")) for t in rets):
+        out.append(ctx.ok(R, h, h.node, "_to_hashable converts nested lists recursively"))
+    else:
+        out.append(ctx.inc(R, h, h.node, f"_to_hashable returns {rets}"))
+    bi = ctx.fn(IDX + ":_SearchIndexer.build_index")
+    if any(isinstance(c, ast.Call) and "signac._utility:_to_hashable" in common.targets_of(ctx, bi, c) for c in body_nodes(bi)):
+        out.append(ctx.ok(R, bi, bi.node, "build_index files list values under the same hashable form that filters are flattened to"))
+    else:
+        out.append(ctx.viol(R, bi, bi.node, "build_index does not convert list values with _to_hashable although filters do: list-valued keys never match"))
+    return out
+
+
+RULES = [c06_a, c06_b, c06_c, c06_d, c06_e, c06_f, c06_g]
